@@ -134,6 +134,48 @@ Proof.
     rewrite (skipn_all2 (n:=pos + (length data - pos))) by lia. now rewrite firstn_nil, app_nil_r.
 Qed.
 
+(* ---- what the loop ASKS the file for.  helpers.read_fully is also the guard against a header that
+   declares a huge size on a tiny file (C05: seeded change C05-9 dropped the `min`): no read() asks
+   for more than one block, nor for more than is still missing, whatever the file answers. ---- *)
+Fixpoint rf_requests (fuel : nat) (data : bytes) (pos remaining bs : nat) (caps : list nat) : list nat :=
+  match fuel with
+  | O => []
+  | S f =>
+    if Nat.eqb remaining 0 then [] else
+    let req := Nat.min remaining bs in
+    let chunk := file_read data pos req (hd_error caps) in
+    req :: match chunk with
+           | [] => []
+           | _ :: _ => rf_requests f data (pos + length chunk) (remaining - length chunk) bs (tl caps)
+           end
+  end.
+
+Theorem rf_requests_bounded : forall bs, 1 <= bs ->
+  forall fuel data pos remaining caps,
+    Forall (fun r => 1 <= r /\ r <= bs /\ r <= remaining) (rf_requests fuel data pos remaining bs caps).
+Proof.
+  intros bs Hbs. induction fuel as [|f IH]; intros data pos remaining caps; [constructor|].
+  cbn [rf_requests]. destruct (Nat.eqb_spec remaining 0) as [E|E]; [constructor|].
+  constructor; [lia|].
+  destruct (file_read data pos (Nat.min remaining bs) (hd_error caps)) as [|x xs]; [constructor|].
+  eapply Forall_impl; [|apply IH]. cbv beta. intros r Hr. lia.
+Qed.
+
+(* no schedule, however hostile (zero-length answers included), makes the loop run more than
+   `remaining` rounds that receive data, so the number of read() calls is at most size + 1 *)
+Theorem rf_requests_count : forall fuel data pos remaining bs caps,
+  length (rf_requests fuel data pos remaining bs caps) <= S remaining.
+Proof.
+  induction fuel as [|f IH]; intros data pos remaining bs caps; cbn [rf_requests length]; [lia|].
+  destruct (Nat.eqb_spec remaining 0) as [E|E]; cbn [length]; [lia|].
+  destruct (file_read data pos (Nat.min remaining bs) (hd_error caps)) as [|x xs] eqn:Ech; cbn [length]; [lia|].
+  specialize (IH data (pos + S (length xs)) (remaining - S (length xs)) bs (tl caps)). lia.
+Qed.
+
+Example rf_requests_example :
+  rf_requests 8 [1;2;3;4;5;6;7;8;9;10]%Z 2 7 4 [3;1;2] = [4; 4; 3; 1].
+Proof. reflexivity. Qed.
+
 (* the hypotheses are satisfiable and the loop really runs: a 10-byte file dribbling 3,1,2,... bytes *)
 Example read_fully_example :
   read_fully 8 [1;2;3;4;5;6;7;8;9;10]%Z 2 7 4 [3;1;2] = Some ([3;4;5;6;7;8;9]%Z, 9)
